@@ -295,3 +295,8 @@ REGISTRY["C07"]["partial_clauses"] = ["float rounding",
     "measurement point at the origin; the y-mirror is the x-mirror conjugated by the axis swap (column-level theorem column_mirrorY; field level by the oracle); "
     "mirrored footprints (mirrored tower) by the oracle",
     "velocity similarity needs the background divided by the same factor (a non-zero background is not scaled by the flow) - stated so in the theorem"]
+REGISTRY["C05"]["theorems"] += T("Proofs.C05b", "BLDFM.C05", ["p3_exp_bound", "prod_perturb", "prod_one_add_le_exp", "layer_product_third_order",
+                                                               "exponent_cubic", "numeric_vs_analytic_flux", "numeric_vs_analytic_conc"])
+REGISTRY["C05"]["partial_clauses"] = ["the explicit bound |numeric - closed form| <= |q| (exp(E) - 1), E = (5/96)|mu|^4 delta^3 h (cubic in the layer thickness) is a theorem "
+                                      "(numeric_vs_analytic_flux/_conc); that the observed ratio per halving is 'about eight' (the bound is attained up to a constant) is checked "
+                                      "numerically by the order oracle", "float rounding"]
